@@ -103,7 +103,7 @@ def _flatten(results):
     out = []
     for nc in results:
         if isinstance(nc.node, list) and len(nc.node) > 0 and isinstance(nc.node[0], NodeCoords):
-            out.extend(_Virtual(x) for x in nc.node)
+            out.extend(nc.node)      # slice elements carry their own coordinates
         elif isinstance(nc.node, list) and len(nc.node) == 0 and nc.path_segment is not None \
                 and ":" in str(nc.path_segment[1]):
             continue      # empty virtual slice
